@@ -195,34 +195,24 @@ func (k *kahn) shape() bool {
 }
 
 func (k *kahn) adjacencyRoles(addEdge *ssa.Function) {
+	// the roles of the two adjacency maps come from the graph's edge model (which
+	// map is keyed by the dependent, which by the dependency), however the edge is
+	// written
 	k.role = map[int]string{}
-	if addEdge == nil || len(addEdge.Params) < 3 {
+	gr := k.e.graphRoles()
+	if !gr.ok || len(k.fn.Params) == 0 {
 		return
 	}
-	for _, b := range addEdge.Blocks {
-		for _, in := range b.Instrs {
-			mu, ok := in.(*ssa.MapUpdate)
-			if !ok {
-				continue
-			}
-			u, ok := ir.Resolve(mu.Map).(*ssa.UnOp)
-			if !ok {
-				continue
-			}
-			fa, ok := u.X.(*ssa.FieldAddr)
-			if !ok || ir.Resolve(fa.X) != ssa.Value(addEdge.Params[0]) {
-				continue
-			}
-			kp, ok := k.e.C.PathOf(mu.Key)
-			if !ok {
-				continue
-			}
-			switch ir.Resolve(kp.Root) {
-			case ssa.Value(addEdge.Params[1]):
-				k.role[fa.Field] = "A"
-			case ssa.Value(addEdge.Params[2]):
-				k.role[fa.Field] = "B"
-			}
+	st, ok := derefStruct(k.fn.Params[0].Type())
+	if !ok {
+		return
+	}
+	for i := 0; i < st.NumFields(); i++ {
+		switch st.Field(i).Name() {
+		case gr.Succ:
+			k.role[i] = "A"
+		case gr.Pred:
+			k.role[i] = "B"
 		}
 	}
 }
